@@ -686,6 +686,11 @@ func (e *MetaCDC) validCreateRequest(req *request.CreateRequest) error {
 			}
 		}
 	}
+	if req.RPCChannelInfo.Position != "" {
+		if _, err := util.Base64DecodeMsgPosition(req.RPCChannelInfo.Position); err != nil {
+			return servererror.NewClientError("the rpc position is invalid, err: " + err.Error())
+		}
+	}
 	if req.RPCChannelInfo.Name != "" && req.RPCChannelInfo.Name != e.config.SourceConfig.ReplicateChan {
 		return servererror.NewClientError("the rpc channel is invalid, the channel name should be the same as the source config")
 	}
